@@ -278,7 +278,7 @@ func PrepareForPackager(
 		switch content.Type {
 		case TypeDir:
 			// implicit directories at the same destination can just be overwritten
-			presentContent, destinationOccupied := contentMap[NormalizeAbsoluteDirPath(content.Destination)]
+			presentContent, destinationOccupied := occupant(contentMap, content.Destination)
 			if destinationOccupied && presentContent.Type != TypeImplicitDir {
 				return nil, contentCollisionError(content, presentContent)
 			}
@@ -297,7 +297,7 @@ func PrepareForPackager(
 			// have been expanded so we can just ignore it, it will be created
 			// by another content element again anyway
 		case TypeRPMGhost, TypeSymlink, TypeRPMDoc, TypeRPMLicence, TypeRPMLicense, TypeRPMReadme, TypeDebChangelog:
-			presentContent, destinationOccupied := contentMap[NormalizeAbsoluteFilePath(content.Destination)]
+			presentContent, destinationOccupied := occupant(contentMap, content.Destination)
 			if destinationOccupied {
 				return nil, contentCollisionError(content, presentContent)
 			}
@@ -373,7 +373,7 @@ func addParents(contentMap map[string]*Content, path string, mtime time.Time) er
 		parent = NormalizeAbsoluteDirPath(parent)
 		// check for content collision and just overwrite previously created
 		// implicit directories
-		c, ok := contentMap[parent]
+		c, ok := occupant(contentMap, parent)
 		if ok {
 			// either we already created this directory as an explicit directory
 			// or as an implicit directory of another file
@@ -400,6 +400,17 @@ func addParents(contentMap map[string]*Content, path string, mtime time.Time) er
 	}
 
 	return nil
+}
+
+// occupant returns the content that already occupies the given destination,
+// no matter whether it is stored as a directory (with a trailing slash) or as
+// any other kind of entry (without one).
+func occupant(contentMap map[string]*Content, dst string) (*Content, bool) {
+	if c, ok := contentMap[NormalizeAbsoluteDirPath(dst)]; ok {
+		return c, true
+	}
+	c, ok := contentMap[NormalizeAbsoluteFilePath(dst)]
+	return c, ok
 }
 
 func sortedParents(dst string) []string {
@@ -431,7 +442,7 @@ func addGlobbedFiles(
 ) error {
 	for src, dst := range globbed {
 		dst = NormalizeAbsoluteFilePath(dst)
-		presentContent, destinationOccupied := all[dst]
+		presentContent, destinationOccupied := occupant(all, dst)
 		if destinationOccupied {
 			c := *origFile
 			c.Destination = dst
@@ -475,7 +486,7 @@ func addTree(
 	mtime time.Time,
 ) error {
 	if tree.Destination != "/" && tree.Destination != "" {
-		presentContent, destinationOccupied := all[NormalizeAbsoluteDirPath(tree.Destination)]
+		presentContent, destinationOccupied := occupant(all, tree.Destination)
 		if destinationOccupied && presentContent.Type != TypeImplicitDir {
 			return contentCollisionError(tree, presentContent)
 		}
@@ -540,6 +551,19 @@ func addTree(
 
 		if tree.FileInfo != nil && tree.FileInfo.Mode != 0 && c.Type != TypeSymlink {
 			c.FileInfo.Mode = tree.FileInfo.Mode
+		}
+
+		if present, occupied := occupant(all, c.Destination); occupied {
+			switch {
+			case c.Type == TypeImplicitDir && present.IsDir():
+				// a directory owned by the filesystem never replaces one
+				// that is already part of the package
+				return nil
+			case c.Type == TypeDir && present.Type == TypeImplicitDir:
+				// explicit directories replace implicit ones
+			default:
+				return contentCollisionError(c, present)
+			}
 		}
 
 		all[c.Destination] = c.WithFileInfoDefaults(umask, mtime)
